@@ -26,7 +26,8 @@ ASSUMPTIONS = [
     "python type of a value are deliberate validation of the database: listed, not judged",
     "the implicit catalogue is finite (listed in evidence); exceptions from constructs outside "
     "it are invisible",
-    "termination of the decoding loops is not decided (progress depends on run-time lengths)",
+    "termination: the cursor-driven item loops are required to check progress themselves "
+    "(C05.R5); counted loops run a number of times that is bounded by a value of the PDU",
 ]
 
 ENTRIES = ["DiagLayer.decode", "DiagLayer.decode_response", "DiagService.decode_message",
@@ -79,9 +80,14 @@ def check(prog: Program, run: Run) -> None:
     run.rule("C05.R4", "the values of key parameters stay available to every dependent "
              "parameter of the PDU: key tables are written by their owners only and never "
              "emptied (shared with C01.R3)", floor=5)
+    run.rule("C05.R5", "decoding terminates: an item loop whose only exits depend on the cursor "
+             "(END-OF-PDU, dynamic end marker) compares the cursor after each item with the "
+             "cursor before it and stops with a DecodeError when the item consumed nothing",
+             floor=2)
     from . import c01
     from .common import run_as
     run_as(run, "C01.R3", "C05.R4", lambda r: c01.key_tables(prog, r))
+    _progress(prog, run)
     cg = CallGraph(prog)
     eff = Effects(prog, cg, DATA_PARAMS, DATA_CALLS, set(CUT), DATA_ATTRS, {"decode_state"})
     entries = [prog.func(e) for e in ENTRIES]
@@ -424,6 +430,79 @@ def _truncation(prog: Program, run: Run) -> None:
             run.violation(R, "MinMaxLengthType.decode_from_pdu", "min-length-guard-test",
                           f"`{ast.unparse(t)}` is not cursor + min_length > len(PDU)",
                           f"{m.module.rel}:{mg[0].lineno}")
+
+
+def _progress(prog: Program, run: Run) -> None:
+    """`while <cursor in front of the end>: item.decode_from_pdu(state)` terminates only if each
+    item moves the cursor.  Whether it does depends on the description (a structure without
+    parameters, or with parameters that consume nothing, is legal), so the loop itself must
+    notice: save the cursor, decode, compare, and leave with a DecodeError."""
+    R = "C05.R5"
+    n = 0
+    for f in prog.iter_functions():
+        if not f.module.rel.startswith("odxtools/") or f.module.rel.startswith("odxtools/cli/"):
+            continue
+        S = next((p for p in f.params() if p == "decode_state"), None)
+        if S is None:
+            continue
+        cur = f"{S}.cursor_byte_position"
+        for lp in walk_no_nested(f.node):
+            if not isinstance(lp, ast.While):
+                continue
+            calls = [x for s_ in lp.body for x in ast.walk(s_) if isinstance(x, ast.Call) and
+                     call_name(x) == "decode_from_pdu"]
+            if not calls:
+                continue
+            n += 1
+            # the item decode: the last decode_from_pdu call of the body (an end-marker probe
+            # in front of it restores the cursor)
+            item = calls[-1]
+            saved = set()
+            for s_ in lp.body:
+                for x in ast.walk(s_):
+                    if isinstance(x, ast.Assign) and ast.unparse(x.value) == cur and isinstance(
+                            x.targets[0], ast.Name) and x.lineno <= item.lineno:
+                        saved.add(x.targets[0].id)
+            guard = None
+            for s_ in lp.body:
+                for x in ast.walk(s_):
+                    if not (isinstance(x, ast.If) and x.lineno > item.lineno):
+                        continue
+                    t = x.test
+                    neg = False
+                    while isinstance(t, ast.UnaryOp) and isinstance(t.op, ast.Not):
+                        t, neg = t.operand, not neg
+                    if not (isinstance(t, ast.Compare) and len(t.ops) == 1):
+                        continue
+                    l, r = ast.unparse(t.left), ast.unparse(t.comparators[0])
+                    op = type(t.ops[0])
+                    stuck = (l == cur and r in saved and (
+                        (op in (ast.LtE, ast.Eq) and not neg) or (op is ast.Gt and neg))) or (
+                            r == cur and l in saved and (
+                                (op in (ast.GtE, ast.Eq) and not neg) or (op is ast.Lt and neg)))
+                    leaves = any(isinstance(y, (ast.Break, ast.Raise, ast.Return)) or (
+                        isinstance(y, ast.Expr) and isinstance(y.value, ast.Call) and call_name(
+                            y.value) == "odxraise") for b in x.body for y in ast.walk(b))
+                    reports = any("DecodeError" in ast.unparse(b) for b in x.body)
+                    hard = any(isinstance(y, (ast.Break, ast.Raise, ast.Return))
+                               for b in x.body for y in ast.walk(b))
+                    if stuck and leaves and reports and hard:
+                        guard = x
+            if guard is not None:
+                run.ok(R, f.qual, f"`while {ast.unparse(lp.test)[:50]}`: an item that leaves the "
+                       "cursor where it was ends the loop with a DecodeError",
+                       f"{f.module.rel}:{guard.lineno}")
+            else:
+                run.violation(R, f.qual, "item-loop-without-progress-check",
+                              f"`while {ast.unparse(lp.test)[:60]}` repeats "
+                              f"`{ast.unparse(item)[:50]}` until the cursor reaches the end of "
+                              "the PDU, but nothing checks that an item moved the cursor: for an "
+                              "item structure that consumes no bytes (no parameters, or only "
+                              "parameters without coded bytes) decoding never terminates",
+                              f"{f.module.rel}:{lp.lineno}", stmt_key(lp))
+    if n < 2:
+        raise AnalysisError(f"only {n} cursor-driven item loops found (expected END-OF-PDU field "
+                            "and dynamic end-marker field)")
 
 
 def _counted_loops(prog: Program, run: Run) -> None:
